@@ -301,6 +301,9 @@ def codecs_and_slug_family():
                 'é', 'ß', 'ø', 'đ', 'Ж', '你',
                 'ﬁ', 'é', '\U0001f600', ' ', 'Ω', "'",
                 '--', '  ', 'Å']
+    # separator characters that are whitespace only in Unicode mode
+    alphabet += [chr(0x1c), chr(0x1f), chr(0x0b), chr(0x85), chr(0xa0),
+                 chr(0x2028), chr(0x3000)]
     ok = re.compile(r'[a-z0-9_]*(-[a-z0-9_]+)*-?\Z')
 
     def slug_checks(x):
